@@ -45,6 +45,19 @@
 (*            share one allocation)                                          *)
 (*   pre/post [ts, cl] full projection of task states / plans and of the live *)
 (*            cluster (per-instance availability, placed tasks, allocations)  *)
+(*   optional fields (a record without them is read with the default):       *)
+(*   conv.preemptive (FALSE)  the policy was built with preemptive=True: the   *)
+(*            tasks placed on the workers are offered too, the policy plans    *)
+(*            on emptied workers and answers for RUNNING tasks (placed in the  *)
+(*            same pool at `now` = keeps running, not placed = preempted,      *)
+(*            placed elsewhere / later = migrated); "have not started" of the  *)
+(*            statement applies to non-preemptive use                          *)
+(*   conv.enforce (FALSE)     enforce_deadlines option (vacuity counters only) *)
+(*   cluster[p][w].prof (<<>>) the work profiles held by the worker, sequence  *)
+(*            of [pr, dem, pend]: profile number, resources its loading        *)
+(*            strategy holds, still loading?                                   *)
+(*   decs[i].pr (0)           profile number of a LOAD / EVICT decision        *)
+(*   tasks[t].prof (0)        profile number of the task                       *)
 (*                                                                          *)
 (* A demand / capacity is compared per resource *name* on a worker            *)
 (* (LedgerOps!TotalQ with the wildcard id), which is what all bundled         *)
@@ -56,15 +69,27 @@ PREEMPTED == 5  EVICTED == 6  COMPLETED == 7  CANCELLED == 8
 EVICT == 1  LOAD == 2  CANCEL == 3  PLACE == 4
 
 \* the greedy and optimisation planners: they answer every offered task
-Planners == {"edf", "fifo", "lsf", "ilp", "ts_gurobi", "ts_cplex"}
+\* ("bp": BranchPredictionScheduler, "bp_logfix": the same with the attribute its log line reads supplied)
+Planners == {"edf", "fifo", "lsf", "ilp", "ts_gurobi", "ts_cplex", "bp", "bp_logfix"}
 \* "have started": no decision may name such a task
 Started == {RUNNING, COMPLETED, CANCELLED}
+Inf == 1000000000
+
+\* optional fields and their defaults
+Has(r, f) == f \in DOMAIN r
+Preemptive(c) == Has(c.conv, "preemptive") /\ c.conv.preemptive
+Enforcing(c)  == Has(c.conv, "enforce") /\ c.conv.enforce
+ProfsOf(c, p, w) == IF Has(c.cluster[p][w], "prof") THEN c.cluster[p][w].prof ELSE <<>>
+PrOf(d) == IF Has(d, "pr") THEN d.pr ELSE 0
+TaskProf(c, t) == IF Has(c.tasks[t], "prof") THEN c.tasks[t].prof ELSE 0
+\* under the preemptive convention a RUNNING task that was offered may be answered
+StartedFor(c) == IF Preemptive(c) THEN {COMPLETED, CANCELLED} ELSE Started
 
 ClauseNames == <<"C10.returns", "C10.one_per_task", "C10.only_offered", "C10.answers_all",
                  "C10.names_exist", "C10.strategy_of_task", "C10.time_not_past",
                  "C10.time_not_before_release", "C10.capacity", "C10.side_effect_free">>
 \* beside the statement: the pinned conventions (reported as notes, never as violations)
-SideNames == <<"conv.start_lb", "conv.grid">>
+SideNames == <<"conv.start_lb", "conv.grid", "conv.evict_held", "conv.batch_size">>
 
 -----------------------------------------------------------------------------
 (* vocabulary *)
@@ -97,7 +122,7 @@ OnlyOffered(c) ==
     {c.decs[i].t : i \in {j \in TaskDecs(c) :
         LET t == c.decs[j].t
         IN  \/ ~Known(c, t)
-            \/ St(c, t) \in Started
+            \/ St(c, t) \in StartedFor(c)
             \/ (t \notin Offered(c) /\ St(c, t) # SCHEDULED)}}
 
 \* (3) the planners answer every offered task that is not already SCHEDULED
@@ -142,11 +167,34 @@ Item0(key, t, p, w, alts, s, isnew, bid) ==
     [key |-> key, t |-> t, pool |-> p, wk |-> w, alts |-> alts, s |-> s, new |-> isnew, bid |-> bid]
 Alt(dem, rt) == [dem |-> dem, rt |-> rt]
 
+\* preemptive convention: an occupant this call answers for is planned anew (its decision is
+\* the item), the others keep their worker
+KeptOcc(c, p, w) ==
+    {j \in 1..Len(c.cluster[p][w].occ) : ~(Preemptive(c) /\ DecsOf(c, c.cluster[p][w].occ[j].t) # {})}
 RunItems0(c) ==
     UNION {UNION {{Item0(<<1, p, w, j>>, c.cluster[p][w].occ[j].t, p, w,
                          <<Alt(c.cluster[p][w].occ[j].dem, c.cluster[p][w].occ[j].fin - c.now)>>, c.now,
                          FALSE, c.cluster[p][w].occ[j].bid)
-                     : j \in 1..Len(c.cluster[p][w].occ)} : w \in WorkerIds(c, p)} : p \in PoolIds(c)}
+                     : j \in KeptOcc(c, p, w)} : w \in WorkerIds(c, p)} : p \in PoolIds(c)}
+
+\* key <<4, p, w, j>>: the j-th work profile held by worker w of pool p (available or still
+\* loading): the resources of its loading strategy stay allocated until an EVICT decision of
+\* this call names it (for ever otherwise); key <<3, i, 0, 0>> of a LOAD decision: held from
+\* its time on.  The task number of such an item is -(10000 + profile number).
+MinOf(S) == CHOOSE m \in S : \A x \in S : m <= x
+EvictTimes(c, p, w, pr) ==
+    {c.decs[i].tm : i \in {j \in ProfileDecs(c) :
+        c.decs[j].kind = EVICT /\ c.decs[j].pool = p /\ c.decs[j].wk = w /\ PrOf(c.decs[j]) = pr /\ c.decs[j].tm >= c.now}}
+HeldUntil(c, p, w, pr) == IF EvictTimes(c, p, w, pr) = {} THEN Inf ELSE MinOf(EvictTimes(c, p, w, pr))
+HeldItems0(c) ==
+    UNION {UNION {{Item0(<<4, p, w, j>>, -(10000 + ProfsOf(c, p, w)[j].pr), p, w,
+                         <<Alt(ProfsOf(c, p, w)[j].dem, HeldUntil(c, p, w, ProfsOf(c, p, w)[j].pr) - c.now - c.conv.gap)>>,
+                         c.now, FALSE, 0)
+                     : j \in 1..Len(ProfsOf(c, p, w))} : w \in WorkerIds(c, p)} : p \in PoolIds(c)}
+LoadDecs(c) == {i \in ProfileDecs(c) : c.decs[i].kind = LOAD /\ NamesOK(c, c.decs[i]) /\ c.decs[i].tm >= c.now}
+LoadItems0(c) ==
+    {Item0(<<3, i, 0, 0>>, -(10000 + PrOf(c.decs[i])), c.decs[i].pool, c.decs[i].wk,
+           <<Alt(c.decs[i].sd.dem, Inf - c.decs[i].tm - c.conv.gap)>>, c.decs[i].tm, TRUE, 0) : i \in LoadDecs(c)}
 
 \* conv.plans = "ignored": the policy plans the invocation instant on the live cluster
 \* only (it never leaves a task SCHEDULED for later itself); plans that are still
@@ -160,14 +208,15 @@ PlanItems0(c) ==
        : t \in KeptPlans(c)}
 
 GoodPlaced(c) == {i \in PlacedDecs(c) : Known(c, c.decs[i].t) /\ NamesOK(c, c.decs[i])}
+\* (a RUNNING task that is answered - preemptive convention - needs its remaining time only)
 AltsOf(c, d) ==
-    IF d.sd.rt # -1 THEN <<Alt(d.sd.dem, d.sd.rt)>>
+    IF d.sd.rt # -1 THEN <<Alt(d.sd.dem, IF St(c, d.t) = RUNNING THEN c.tasks[d.t].rem ELSE d.sd.rt)>>
     ELSE [k \in 1..Len(c.tasks[d.t].strats) |-> Alt(c.tasks[d.t].strats[k].dem, c.tasks[d.t].strats[k].rt)]
 DecItems0(c) ==
     {Item0(<<3, i, 0, 0>>, c.decs[i].t, c.decs[i].pool, c.decs[i].wk, AltsOf(c, c.decs[i]), c.decs[i].tm,
            TRUE, c.decs[i].sd.bid) : i \in GoodPlaced(c)}
 
-Items0(c) == RunItems0(c) \cup PlanItems0(c) \cup DecItems0(c)
+Items0(c) == RunItems0(c) \cup PlanItems0(c) \cup DecItems0(c) \cup HeldItems0(c) \cup LoadItems0(c)
 
 \* a choice of one alternative per item that has several; the concrete items under it
 \* hold dem during [s, e), e = s + rt + conv.gap
@@ -276,6 +325,21 @@ Offenders(cl, c) ==
       [] cl = "C10.side_effect_free"        -> SideEffectFree(c)
       [] cl = "conv.start_lb" -> {c.decs[i].t : i \in {j \in PlacedDecs(c) : c.decs[j].tm < c.now + c.conv.startLB}}
       [] cl = "conv.grid"     -> {c.decs[i].t : i \in {j \in PlacedDecs(c) : (c.decs[j].tm - c.now) % c.conv.grid # 0}}
+      \* an EVICT names a profile the worker holds
+      [] cl = "conv.evict_held" ->
+            {-(10000 + PrOf(c.decs[i])) : i \in {j \in ProfileDecs(c) :
+                LET d == c.decs[j]
+                IN  d.kind = EVICT /\ NamesOK(c, d) /\ d.wk > 0
+                    /\ ~\E k \in 1..Len(ProfsOf(c, d.pool, d.wk)) : ProfsOf(c, d.pool, d.wk)[k].pr = PrOf(d)}}
+      \* the members this call gives one batch, with the occupants already in it, are at most its batch size
+      [] cl = "conv.batch_size" ->
+            {c.decs[i].t : i \in {j \in PlacedDecs(c) :
+                LET d == c.decs[j]
+                IN  d.sd.bid # 0 /\ NamesOK(c, d)
+                    /\ Cardinality({k \in PlacedDecs(c) : c.decs[k].sd.bid = d.sd.bid})
+                        + Cardinality(UNION {{<<w, o>> : o \in {v \in KeptOcc(c, d.pool, w) : c.cluster[d.pool][w].occ[v].bid = d.sd.bid}}
+                                               : w \in WorkerIds(c, d.pool)})
+                       > d.sd.bs}}
 
 \* the circumstance of a failure (part of the finding key): what the new placements
 \* collide with / why a decision was not allowed / what changed
@@ -287,7 +351,8 @@ CapacityCirc(c) ==
                         asg == CHOOSE a \in Assignments(c, I, p) : TRUE
                         K   == UNION {UNION {UNION {
                                  IF Over(c, I, asg, p, w, x, n)
-                                 THEN {CASE it.key[1] = 1 -> "running" [] it.key[1] = 2 -> "kept_plan" [] OTHER -> "new"
+                                 THEN {CASE it.key[1] = 1 -> "running" [] it.key[1] = 2 -> "kept_plan"
+                                         [] it.key[1] = 4 -> "held_profile" [] it.t < 0 -> "load" [] OTHER -> "new"
                                          : it \in {y \in ActiveOn(I, asg, w, x) : DemQ(y.dem, n) > 0}}
                                  ELSE {} : n \in ResNames(c, I, p)} : x \in Instants(c, I)} : w \in WorkerIds(c, p)}
                     IN  IF K = {} THEN {"no_strategy_reported"} ELSE K
@@ -296,8 +361,13 @@ CapacityCirc(c) ==
 Circ(cl, c) ==
     CASE cl = "C10.capacity" -> CapacityCirc(c)
       [] cl = "C10.only_offered" ->
-            {CASE ~Known(c, t) -> "unknown_task" [] St(c, t) \in Started -> "started" [] OTHER -> "not_offered"
+            {CASE ~Known(c, t) -> "unknown_task" [] St(c, t) \in StartedFor(c) -> "started" [] OTHER -> "not_offered"
                : t \in OnlyOffered(c)}
+      \* why a task got several answers: it was offered several times / the answers differ / the same answer twice
+      [] cl = "C10.one_per_task" ->
+            {IF Cardinality({k \in 1..Len(c.offered) : c.offered[k] = t}) > 1 THEN "offered_twice"
+             ELSE IF Cardinality({c.decs[i] : i \in DecsOf(c, t)}) > 1 THEN "distinct_answers" ELSE "same_answer"
+               : t \in OnePerTask(c)}
       [] cl = "C10.side_effect_free" ->
             {IF o > 0 THEN "task" ELSE IF o < 0 THEN "cluster" ELSE "shape" : o \in SideEffectFree(c)}
       [] OTHER -> {}
@@ -306,13 +376,32 @@ Range(s) == {s[i] : i \in 1..Len(s)}
 Failing(c) == {cl \in Range(ClauseNames) : Offenders(cl, c) # {}}
 ValidDecision(c) == Failing(c) = {}
 
+\* vocabulary of the state classes
+Occupants(c) == {t \in TaskIds(c) : St(c, t) = RUNNING}
+\* offered tasks that wait for their first decision
+Fresh(c) == {t \in Offered(c) : Known(c, t) /\ St(c, t) \in {VIRTUAL, RELEASED} /\ c.tasks[t].rel >= 0
+                                /\ Len(c.tasks[t].strats) > 0}
+FitsEmpty(c, p, w, dem) == \A k \in 1..Len(dem) : DemQ(dem, dem[k].name) <= CapQ(c, p, w, dem[k].name)
+FitWorkers(c, t) ==
+    {pw \in UNION {{<<p, w>> : w \in WorkerIds(c, p)} : p \in PoolIds(c)} :
+        \E k \in 1..Len(c.tasks[t].strats) : FitsEmpty(c, pw[1], pw[2], c.tasks[t].strats[k].dem)}
+Earliest(c, t) == IF c.tasks[t].rel > c.now THEN c.tasks[t].rel ELSE c.now
+MinRt(c, t) == MinOf({c.tasks[t].strats[k].rt : k \in 1..Len(c.tasks[t].strats)})
+
 \* which parts of the contract a record puts to work (vacuity counters of the harness)
 Exercised(c) ==
     LET I == Items(c)
         T == TaskIds(c)
     IN  {x \in {"decided", "placed", "unplaced", "cancel", "profile_decision", "offered_virtual", "offered_scheduled",
                 "running", "scheduled", "kept_plan", "redecided_scheduled", "pool_chosen_worker", "named_worker",
-                "future_start", "several_instants", "shared_worker", "worker_filled", "no_strategy", "batch"} :
+                "future_start", "several_instants", "shared_worker", "worker_filled", "no_strategy", "batch",
+                "preemptive", "enforcing", "running_redecided", "running_offered", "batch_joined", "held_profile",
+                "held_profile_resources", "load", "evict", "load_after_evict",
+                "running_past_deadline", "running_will_overrun", "running_little_left", "running_much_left",
+                "scheduled_past_deadline", "scheduled_future", "scheduled_deferred", "offered_after_running_deadline",
+                "offered_at_running_deadline", "disjoint_windows", "offered_only_fits_busy_worker",
+                "offered_only_fits_planned_worker", "offered_hopeless_deadline", "offered_tight_deadline",
+                "offered_loose_deadline", "placed_beside_overrun"} :
           CASE x = "decided"   -> Len(c.decs) > 0
             [] x = "placed"    -> PlacedDecs(c) # {}
             [] x = "unplaced"  -> \E i \in TaskDecs(c) : c.decs[i].kind = PLACE /\ ~c.decs[i].placed
@@ -336,7 +425,50 @@ Exercised(c) ==
                       Usage({ot \in I : ot.pool = it.pool /\ ot.wk = it.wk /\ Active(ot, it.s)}, it.dem[k].name)
                           = CapQ(c, it.pool, it.wk, it.dem[k].name)
             [] x = "no_strategy" -> \E i \in PlacedDecs(c) : c.decs[i].sd.rt = -1
-            [] x = "batch" -> \E i \in PlacedDecs(c) : c.decs[i].sd.bid # 0}
+            [] x = "batch" -> \E i \in PlacedDecs(c) : c.decs[i].sd.bid # 0
+            [] x = "preemptive" -> Preemptive(c)
+            [] x = "enforcing"  -> Enforcing(c)
+            [] x = "running_redecided" -> \E t \in T : St(c, t) = RUNNING /\ DecsOf(c, t) # {}
+            [] x = "running_offered"   -> \E t \in Offered(c) : Known(c, t) /\ St(c, t) = RUNNING
+            [] x = "batch_joined" -> \E i \in PlacedDecs(c) : c.decs[i].sd.bid # 0 /\
+                                        \E it \in I : ~it.new /\ it.bid = c.decs[i].sd.bid
+            [] x = "held_profile" -> \E it \in I : it.key[1] = 4
+            [] x = "held_profile_resources" -> \E it \in I : it.key[1] = 4 /\ Len(it.dem) > 0
+            [] x = "load"  -> \E i \in ProfileDecs(c) : c.decs[i].kind = LOAD
+            [] x = "evict" -> \E i \in ProfileDecs(c) : c.decs[i].kind = EVICT
+            [] x = "load_after_evict" -> \E i, j \in ProfileDecs(c) : c.decs[i].kind = LOAD /\ c.decs[j].kind = EVICT
+                                            /\ c.decs[i].pool = c.decs[j].pool /\ c.decs[i].wk = c.decs[j].wk
+            \* the classes of reachable states the direct calls must contain (DESIGN 5, C10)
+            [] x = "running_past_deadline" -> \E t \in Occupants(c) : c.tasks[t].dl < c.now
+            [] x = "running_will_overrun"  -> \E t \in Occupants(c) : c.tasks[t].dl >= c.now /\ c.now + c.tasks[t].rem > c.tasks[t].dl
+            [] x = "running_little_left"   -> \E t \in Occupants(c) : c.tasks[t].rem <= 2
+            [] x = "running_much_left"     -> \E t \in Occupants(c) : c.tasks[t].rem >= 5
+            [] x = "scheduled_past_deadline" -> \E t \in T : St(c, t) = SCHEDULED /\ c.tasks[t].dl < c.now
+            [] x = "scheduled_future" -> \E t \in T : St(c, t) = SCHEDULED /\ c.tasks[t].plan.tm > c.now
+            \* a plan whose time has passed: the placement was deferred (WORKER_NOT_READY / TASK_NOT_READY)
+            [] x = "scheduled_deferred" -> \E t \in T : St(c, t) = SCHEDULED /\ c.tasks[t].plan.pool # 0 /\ c.tasks[t].plan.tm < c.now
+            [] x = "offered_after_running_deadline" ->
+                  \E o \in Fresh(c), t \in Occupants(c) : c.tasks[o].rel > c.tasks[t].dl
+            [] x = "offered_at_running_deadline" ->
+                  \E o \in Fresh(c), t \in Occupants(c) : c.tasks[o].rel = c.tasks[t].dl
+            [] x = "disjoint_windows" ->
+                  \E o \in Fresh(c), t \in T : St(c, t) \in {RUNNING, SCHEDULED} /\
+                      (c.tasks[t].dl < c.tasks[o].rel \/ c.tasks[o].dl < c.tasks[t].rel)
+            [] x = "offered_only_fits_busy_worker" ->
+                  \E o \in Fresh(c) : Cardinality(FitWorkers(c, o)) = 1 /\
+                      \E pw \in FitWorkers(c, o) : c.cluster[pw[1]][pw[2]].occ # <<>>
+            [] x = "offered_only_fits_planned_worker" ->
+                  \E o \in Fresh(c) : Cardinality(FitWorkers(c, o)) = 1 /\
+                      \E pw \in FitWorkers(c, o), t \in T : St(c, t) = SCHEDULED /\ c.tasks[t].plan.tm > c.now
+                                                            /\ c.tasks[t].plan.pool = pw[1] /\ c.tasks[t].plan.wk = pw[2]
+            [] x = "offered_hopeless_deadline" -> \E o \in Fresh(c) : c.tasks[o].dl < Earliest(c, o) + MinRt(c, o)
+            [] x = "offered_tight_deadline" ->
+                  \E o \in Fresh(c) : c.tasks[o].dl >= Earliest(c, o) + MinRt(c, o) /\ c.tasks[o].dl <= Earliest(c, o) + MinRt(c, o) + 2
+            [] x = "offered_loose_deadline" -> \E o \in Fresh(c) : c.tasks[o].dl >= Earliest(c, o) + 2 * MinRt(c, o) + 4
+            \* a new placement shares a worker with a running task that has passed its deadline, later on
+            [] x = "placed_beside_overrun" ->
+                  \E it \in I : it.new /\ it.wk # 0 /\ \E ot \in I : ot.key[1] = 1 /\ ot.pool = it.pool /\ ot.wk = it.wk
+                                                             /\ ot.t \in T /\ c.tasks[ot.t].dl < c.now}
 
 \* one line per failing (record, clause) and one line per record; always TRUE
 Judge(c) ==
@@ -378,6 +510,10 @@ SanityTasks ==
 SanityCluster ==
     << << Wkr(2, 1, <<[t |-> 1, dem |-> Gpu(1), fin |-> 13, bid |-> 0]>>), Wkr(1, 1, <<>>) >> >>
 Conv(gap, inst, lb) == [gap |-> gap, instants |-> inst, plans |-> "kept", startLB |-> lb, grid |-> 1]
+ConvPre == [gap |-> 0, instants |-> "now", plans |-> "ignored", startLB |-> 0, grid |-> 1, preemptive |-> TRUE, enforce |-> FALSE]
+WkrP(cap, av, prof) == [insts |-> <<[name |-> "gpu", id |-> "g", cap |-> cap]>>, av |-> <<av>>, occ |-> <<>>, prof |-> prof]
+Load(pr, p, w, sd, tm) == [kind |-> LOAD, t |-> 0, placed |-> TRUE, pool |-> p, wk |-> w, sd |-> sd, tm |-> tm, pr |-> pr]
+Evict(pr, p, w, tm) == [kind |-> EVICT, t |-> 0, placed |-> TRUE, pool |-> p, wk |-> w, sd |-> NoSd, tm |-> tm, pr |-> pr]
 SanityCall(policy, conv, decs) ==
     WithSnap([id |-> 0, policy |-> policy, conv |-> conv, now |-> 10, raised |-> "", offered |-> <<3, 4>>,
               tasks |-> SanityTasks, cluster |-> SanityCluster, decs |-> decs, pre |-> <<>>, post |-> <<>>])
@@ -450,6 +586,41 @@ SanityOK ==
     /\ CapacityCirc([GoodSlots EXCEPT !.policy = "z3", !.decs = <<Place(3, 1, 1, NoSd, 10)>>,
                                       !.tasks[3].strats = <<Str(2, 4)>>]) = {"new", "running"}
     /\ FailsExactly([GoodSlots EXCEPT !.policy = "z3", !.decs = <<Place(3, 1, 2, NoSd, 11)>>], {"C10.capacity"})
+    \* preemptive convention: the RUNNING task 1 is offered and may be answered (kept on its pool now, or preempted -
+    \* its gpu is then free for the 2-gpu strategy of task 3); without the convention the answer is not allowed, and
+    \* without the preemption task 3 does not fit
+    /\ ValidDecision([GoodEdf EXCEPT !.conv = ConvPre, !.offered = <<1, 3, 4>>,
+                                     !.decs = <<Place(1, 1, 0, Sd(1, 8), 10), Place(4, 1, 0, Sd(1, 2), 10), Unplaced(3)>>])
+    /\ FailsExactly([GoodEdf EXCEPT !.conv.plans = "ignored", !.offered = <<1, 3, 4>>,
+                                    !.decs = <<Place(1, 1, 0, Sd(1, 8), 10), Place(4, 1, 0, Sd(1, 2), 10), Unplaced(3)>>], {"C10.only_offered"})
+    /\ FailsExactly([GoodEdf EXCEPT !.conv = ConvPre, !.decs = <<Place(1, 1, 0, Sd(1, 8), 10), Place(4, 1, 0, Sd(1, 2), 10), Unplaced(3)>>],
+                    {"C10.only_offered"})
+    /\ ValidDecision([GoodEdf EXCEPT !.conv = ConvPre, !.offered = <<1, 3, 4>>,
+                                     !.decs = <<Unplaced(1), Place(3, 1, 1, Sd(2, 4), 10), Place(4, 1, 2, Sd(1, 2), 10)>>])
+    /\ FailsExactly([GoodEdf EXCEPT !.conv = ConvPre, !.offered = <<1, 3, 4>>,
+                                    !.decs = <<Place(1, 1, 1, Sd(1, 8), 10), Place(3, 1, 1, Sd(2, 4), 10), Place(4, 1, 2, Sd(1, 2), 10)>>],
+                    {"C10.capacity"})
+    /\ FailsExactly([GoodEdf EXCEPT !.conv = ConvPre, !.offered = <<3, 4>>,
+                                    !.decs = <<Place(3, 1, 1, Sd(2, 4), 10), Place(4, 1, 2, Sd(1, 2), 10)>>], {"C10.capacity"})
+    \* held profiles: worker 2 holds profile 1 whose loading strategy keeps the only gpu - task 4 does not fit there
+    \* unless this call evicts the profile; a LOAD holds resources from its time on
+    /\ FailsExactly([GoodEdf EXCEPT !.cluster[1][2] = WkrP(1, 0, <<[pr |-> 1, dem |-> Gpu(1), pend |-> FALSE]>>),
+                                    !.decs = <<Place(4, 1, 2, Sd(1, 2), 10), Unplaced(3)>>], {"C10.capacity"})
+    /\ CapacityCirc([GoodEdf EXCEPT !.cluster[1][2] = WkrP(1, 0, <<[pr |-> 1, dem |-> Gpu(1), pend |-> FALSE]>>),
+                                    !.decs = <<Place(4, 1, 2, Sd(1, 2), 10), Unplaced(3)>>]) = {"held_profile", "new"}
+    /\ ValidDecision([GoodEdf EXCEPT !.cluster[1][2] = WkrP(1, 0, <<[pr |-> 1, dem |-> Gpu(1), pend |-> FALSE]>>),
+                                     !.decs = <<Evict(1, 1, 2, 10), Place(4, 1, 2, Sd(1, 2), 10), Unplaced(3)>>])
+    /\ Offenders("conv.evict_held", [GoodEdf EXCEPT !.decs = <<Evict(1, 1, 2, 10), Place(4, 1, 2, Sd(1, 2), 10), Unplaced(3)>>]) = {-10001}
+    /\ FailsExactly([GoodEdf EXCEPT !.decs = <<Load(2, 1, 2, Sd(1, 5), 10), Place(4, 1, 2, Sd(1, 2), 10), Unplaced(3)>>], {"C10.capacity"})
+    /\ ValidDecision([GoodEdf EXCEPT !.decs = <<Load(2, 1, 2, Sd(1, 5), 10), Place(4, 1, 1, Sd(1, 2), 10), Unplaced(3)>>])
+    /\ FailsExactly([GoodEdf EXCEPT !.decs = <<Load(2, 1, 3, Sd(1, 5), 10), Place(4, 1, 1, Sd(1, 2), 10), Unplaced(3)>>], {"C10.names_exist"})
+    \* a batch is at most its size
+    /\ Offenders("conv.batch_size", [GoodEdf EXCEPT !.policy = "clockwork",
+          !.decs = <<Place(4, 1, 2, [Sd(1, 2) EXCEPT !.bid = 7], 10), Place(3, 1, 2, [Sd(1, 6) EXCEPT !.bid = 7], 10)>>]) = {3, 4}
+    \* two answers: the circumstance tells why
+    /\ Circ("C10.one_per_task", [GoodEdf EXCEPT !.decs = Append(@, Unplaced(4))]) = {"distinct_answers"}
+    /\ Circ("C10.one_per_task", [GoodEdf EXCEPT !.decs = Append(@, Unplaced(3))]) = {"same_answer"}
+    /\ Circ("C10.one_per_task", [GoodEdf EXCEPT !.offered = <<3, 4, 3>>, !.decs = Append(@, Unplaced(3))]) = {"offered_twice"}
     \* (6) a task state, a plan or an availability differs after the call
     /\ FailsExactly([GoodEdf EXCEPT !.post.ts[3].st = SCHEDULED], {"C10.side_effect_free"})
     /\ SideEffectFree([GoodEdf EXCEPT !.post.cl[1][2] = <<0>>]) = {-102}
